@@ -3,7 +3,7 @@
 from world import oracles
 from world.gen import Profile
 from world.mq import MS
-from .c01 import log_probes
+from .c01 import log_probes, feature_probes
 from .mqspec import MQSpec
 
 
@@ -38,4 +38,6 @@ class Spec(MQSpec):
         return oracles.check_c05(world)
 
     def probes(self, world):
-        return log_probes(world)
+        p = log_probes(world)
+        p.update(feature_probes(world))
+        return p
